@@ -80,6 +80,12 @@ fn main() {
     attempt("deep-struct-vec-field", &Deep { n: 3, t: vec![f] }, 1);
     attempt("vec-of-vec", &vec![vec![f]], 8);
     attempt("slice-ref", &&[f, f][..], 0);
+    // exact-size iterators: SerIter writes its items itself (a third place where the run-time check must stand)
+    attempt("ser-iter", &SerIter::from([f, f].iter()), 0);
+    attempt("ser-iter-of-leaf", &SerIter::from([l, l, l].iter()), 0);
+    attempt("ser-iter-empty", &SerIter::from([f; 0].iter()), 0);
+    attempt("deep-struct-ser-iter-field", &Deep { n: 3, t: SerIter::from([f].iter()) }, 1);
+    attempt("ser-iter-of-tuple", &SerIter::from([(l, l)].iter()), 0);
     attempt("enum-tuple-variant", &FakeE::T(1, l), 0);
     attempt("enum-struct-variant", &FakeE::N { p: l }, 0);
     attempt("enum-unit-variant", &FakeE::A, 0);
